@@ -2,6 +2,7 @@ import Cirbo.Proofs.Traverse
 import Cirbo.Proofs.Dfs
 import Cirbo.Proofs.TrTerm
 import Cirbo.Proofs.DfsOrder
+import Cirbo.Proofs.CycleCheck
 /-!
 # C20 — Traversals visit exactly the reachable gates in a valid order
 
@@ -12,9 +13,11 @@ import Cirbo.Proofs.DfsOrder
 -- OBLIGATION: c20_dfs_exits_post_order
 -- OBLIGATION: c20_dfs_inverse_exits_post_order
 -- OBLIGATION: c20_dfs_enter_before_exit
+-- OBLIGATION: c20_cycle_check_silent_iff_acyclic
+-- OBLIGATION: c20_cycle_check_raises_when_cycle_reachable
 -- OBLIGATION: c20_traversal_terminates
 -- OBLIGATION: c20_traverse_never_raises
--- PARTIAL: exactness of the cycle check is modelled (Model/Traverse.lean, hasCycleCheck) and compared with the code on every run, deliberately cyclic netlists included; its theorem is not proved yet.
+-- PARTIAL: every clause is proved on the model; BFS has no hook-order clause. What remains by correspondence only: the tie between the model's event log and the hooks the Python generator actually calls (compared event by event on every run).
 -/
 namespace Cirbo
 
@@ -105,6 +108,27 @@ theorem c20_dfs_enter_before_exit {c : Circuit} (inverse : Bool) (start : Option
     ∀ pre l post, log = pre ++ Ev.exit l :: post → Ev.enter l ∈ pre :=
   dfs_enter_before_exit inverse start tsu ab h
 
+/-- The cycle check is silent exactly on circuits with no cycle reachable from the outputs
+(`AcyclicFromOutputs`: a rank strictly decreasing along operands on the reachable part): if there is
+no such cycle it does not raise `CircuitValidationError`, and if it returns normally there is none. -/
+theorem c20_cycle_check_silent_iff_acyclic (c : Circuit) :
+    (AcyclicFromOutputs c → hasCycleCheck c ≠ .ok true) ∧ (hasCycleCheck c = .ok false → AcyclicFromOutputs c) :=
+  ⟨cycleCheck_acyclic, cycleCheck_false⟩
+
+/-- And it does raise when a cycle is reachable: with distinct labels and every reachable label
+naming a gate (otherwise `GateDoesntExistError` is raised first), a circuit that is not
+`AcyclicFromOutputs` makes the check raise `CircuitValidationError`. -/
+theorem c20_cycle_check_raises_when_cycle_reachable {c : Circuit} (hnd : c.labels.Nodup)
+    (hcl : ∀ l, Reach c.opsOf c.outputs l → c.hasGate l = true) (hcyc : ¬ AcyclicFromOutputs c) :
+    hasCycleCheck c = .ok true :=
+  cycleCheck_cyclic hnd hcl hcyc
+
+/-- non-vacuity: a two-gate cycle behind an output raises, the same gates unreachable do not -/
+example : (hasCycleCheck ⟨[⟨"a", .NOT, ["b"]⟩, ⟨"b", .NOT, ["a"]⟩, ⟨"x", .INPUT, []⟩], ["x"], ["a"], [], []⟩).toOption = some true := by
+  decide
+example : (hasCycleCheck ⟨[⟨"a", .NOT, ["b"]⟩, ⟨"b", .NOT, ["a"]⟩, ⟨"x", .INPUT, []⟩], ["x"], ["x"], [], []⟩).toOption = some false := by
+  decide
+
 /-- The traversal loop terminates: on any circuit with distinct labels (cyclic or not, dangling
 operands or not), any start list, direction and hook set, the loop's step budget — which the proof
 shows is a strict upper bound on `queue length + Σ_{unvisited}(1 + successors)` — is never exhausted. -/
@@ -124,6 +148,8 @@ theorem c20_traverse_never_raises {c : Circuit} (h : WFU c) (bfs inverse : Bool)
 #print axioms c20_dfs_exits_post_order
 #print axioms c20_dfs_inverse_exits_post_order
 #print axioms c20_dfs_enter_before_exit
+#print axioms c20_cycle_check_silent_iff_acyclic
+#print axioms c20_cycle_check_raises_when_cycle_reachable
 #print axioms c20_traversal_terminates
 #print axioms c20_traverse_never_raises
 #print axioms c20_top_sort_inputs_first
